@@ -516,6 +516,35 @@ func initMiscIntrinsics() {
 	reg("os.LookupEnv", func(fr *frame, a []value) (value, bool) { return tuple{"", false}, true })
 	reg("syscall.Getenv", func(fr *frame, a []value) (value, bool) { return tuple{"", false}, true })
 
+	// math/rand(/v2): arbitrary values within the documented range
+	randFloat := func(fr *frame, a []value) (value, bool) {
+		p := needPath(fr)
+		f := p.freshVar("rand_f", sortFP)
+		p.assume(fpCmp("fp.geq", f, mkFP(0)))
+		p.assume(fpCmp("fp.lt", f, mkFP(1)))
+		p.noteRand(f)
+		return f, true
+	}
+	randIntN := func(fr *frame, a []value) (value, bool) {
+		p := needPath(fr)
+		n := lift(a[0])
+		v := p.freshVar("rand_i", bvSort(64))
+		p.assume(bvCmp("bvsge", v, mkBV(0, 64)))
+		if n.S.K == SInt {
+			n = intToBV(n, 64)
+		}
+		p.assume(bvCmp("bvslt", v, bvResize(n, 64, true)))
+		p.noteRand(v)
+		return concretize(v, types.Typ[types.Int]), true
+	}
+	for _, pkg := range []string{"math/rand/v2", "math/rand"} {
+		reg(pkg+".Float64", randFloat)
+		reg(pkg+".IntN", randIntN)
+		reg(pkg+".Intn", randIntN)
+		reg(pkg+".Int64N", randIntN)
+		reg(pkg+".Int63n", randIntN)
+	}
+
 	// unique.Make[T]: canonicalisation is the identity in the boxed model; Handle{value *T}
 	reg("unique.Make", func(fr *frame, a []value) (value, bool) {
 		cell := new(value)
